@@ -425,6 +425,12 @@ def _correspond_case(ck, op, call, sp, ans, stats):
                     d.append(f"model: returns {json.dumps(exp)[:200]}; real raised {sp['raised']}: {sp.get('msg', '')[:120]}")
                 else:
                     _cmp("output Var types", [[k, t] for k, t in zip(out_keys(cls, call), sp["types"])], exp, d)
+    # value propagation: types as `construct`, a value only on a typed output
+    if "vp" in ans and ans["vp"] != "error" and sp["raised"] is None and sp.get("has_value") is not None and not patched:
+        stats["value_prop_compared"] += 1
+        _cmp("output Var (type, has value) under value propagation",
+             [[k, t, hv] for k, t, hv in zip(out_keys(cls, call), sp["types"], sp["has_value"])],
+             [[k, t, v is not None] for k, t, v in ans["vp"]], d)
     # the oracle's hand-built model is the model's `handModel`
     if not ans["untyped"] and not call.get("sub"):
         try:
